@@ -293,7 +293,18 @@ impl<'a> Builder<'a> {
     }
 
     fn emit_record(&mut self, force_type: Option<u16>, ttl: Option<u32>) -> Record {
-        let rtype = force_type.unwrap_or_else(|| *self.rng.pick(self.cfg.types));
+        let mut rtype = force_type.unwrap_or_else(|| *self.rng.pick(self.cfg.types));
+        if force_type.is_none() && std::ptr::eq(self.cfg.types, ALL_TYPES) && self.rng.chance(1, 6) {
+            // any other type is opaque to the library, including the RFC 1035 types whose data holds names
+            // (MD MF MB MG MR MINFO RP AFSDB RT PX SRV NAPTR KX NSEC RRSIG ...): copied verbatim, never expanded
+            rtype = match self.rng.below(3) {
+                0 => *self.rng.pick(&[3u16, 4, 7, 8, 9, 14, 17, 18, 21, 26, 33, 35, 36, 47, 46, 249, 250, 0, 10, 13, 65535]),
+                _ => self.rng.u16(),
+            };
+            if [T_A, T_NS, T_CNAME, T_SOA, T_PTR, T_MX, T_AAAA, T_DNAME, T_OPT].contains(&rtype) {
+                rtype = T_TXT;
+            }
+        }
         let name = self.emit_name(true);
         let class = if self.rng.chance(1, 12) { self.rng.u16() } else { 1 };
         let ttl = ttl.unwrap_or_else(|| match self.rng.below(6) {
